@@ -10,7 +10,8 @@ reg(Prop(
          '32/64-bit types. The result is compared with __int128 arithmetic. evaluations counts single library calls judged; '
          'a case for the distinct count is one row (function, instantiation, first operand, set of second operands) or one '
          'chunk of unary inputs, hashed canonically; inputs whose exact result is not representable are skipped and counted.'
-         ' mod<float> and mod<long double> (operands beyond double precision) against std::fmod of the same type.',
+         ' mod<float> and mod<long double> (operands beyond double precision) against std::fmod of the same type.'
+         ' ceil_div_static<T, a, b> for 11 dividends (0 .. max) x 6 divisors, T = unsigned, uint64_t.',
     assumptions=COMMON_ASSUMPTIONS + ['inputs whose mathematically exact result (or the machine quotient a/b) is not representable are out of scope by the statement and skipped; log2(0) is documented as undefined and skipped'],
     exhaustive_spaces=['all values of every 8/16-bit source type for all 64 truncation_check pairs',
                        'all pairs of 8-bit operands for mod/div/diff/clamp',
